@@ -387,6 +387,10 @@ fn run_sinkscan(job: &Value) -> Value {
         ("WriteZero", io::ErrorKind::WriteZero),
         ("BrokenPipe", io::ErrorKind::BrokenPipe),
         ("StorageFull", io::ErrorKind::StorageFull),
+        // kinds that invite "try again" handling; only Interrupted may be retried (write_all does), and it is not an error then
+        ("WouldBlock", io::ErrorKind::WouldBlock),
+        ("TimedOut", io::ErrorKind::TimedOut),
+        ("PermissionDenied", io::ErrorKind::PermissionDenied),
     ];
     let mut anomalies: Vec<Value> = Vec::new();
     let mut injections = 0u64;
